@@ -280,6 +280,7 @@ var documentedNeutral = map[string]string{
 	"C13-n6":  "a pre-sized slice filled by a counter over a map range (needs: a map range runs len(m) times)",
 	"C03-n8":  "`_, seen := m[k]` became `m[k]` on a map[string]bool that only stores true: equal by a data invariant, not by shape",
 	"C07-n8":  "the audited `a[ai:]` became `s[i:]` in a helper that is inlined: its loop-carried index is defined in another shape, so the audit's canonical name does not match, and the invariant itself (increments inside a range loop over the slice) is beyond the prover",
+	"C07-n23": "as C07-n8: the run is cut out by a new helper that keeps the rune loop (`for _, c := range s[i:] { …; i++ }; return s[start:i]`): the audited `a[ai:]` reappears as `s[start:]` with another definition shape, and the invariant itself (one increment per rune of the remaining string) is beyond the prover",
 	"C07-n9":  "`rest := a[len(b):]; rest[0]`: needs len(rest) = len(a) - len(b), which is not a difference constraint",
 	"C18-n9":  "Clone+SortFunc became slices.SortedFunc(slices.Values(…)): a library idiom the sort/search anchors do not know",
 	"C05-n14": "a nil test made redundant by an earlier successful type assertion was removed, so the traced package's URL is no longer a phi in a frozen row: equal by a value invariant, not by shape",
